@@ -276,7 +276,13 @@ func addrImmConst(t immType, i instruction, w expr.Width) expr.Const {
 	if !ok {
 		panic(fmt.Sprintf("immediate encoding %d has no value", t))
 	}
-	return expr.NewConstUint(addrAddImm(i.addr, imm), w)
+	return addrConst(addrAddImm(i.addr, imm), w)
+}
+
+// addrConst returns address a as a constant of width w. Addresses wrap around
+// at the width of the address space, so higher bytes of a are cut.
+func addrConst(a model.Addr, w expr.Width) expr.Const {
+	return expr.ConstFromUint(uint64(a)).WithWidth(w)
 }
 
 func branchCmp(
@@ -286,7 +292,7 @@ func branchCmp(
 	w expr.Width,
 ) expr.Effect {
 	jumpTarget := addrImmConst(immTypeB, i, w)
-	nextInstr := expr.NewConstUint(i.addr+instructionLen, w)
+	nextInstr := addrConst(i.addr+instructionLen, w)
 
 	condTrue, condFalse := jumpTarget, nextInstr
 	if !branchIfTrue {
